@@ -24,6 +24,15 @@
 #ifndef KF_C10_EMPTY_REF_KEEPS_BASE_QUERY
 # define KF_C10_EMPTY_REF_KEEPS_BASE_QUERY 0
 #endif
+#ifndef KF_C10_BASE_INNER_DOTS
+# define KF_C10_BASE_INNER_DOTS 0
+#endif
+/* a base path of three or more segments with a dot segment in front of its last segment */
+static int base_inner_dots(const struct sv_path *p) {
+	int i, r = 0;
+	for (i = 0; i < SV_MAXSEG; i++) if (i + 1 < p->n && (SV_IS_DOT(&p->seg[i]) || SV_IS_DOTDOT(&p->seg[i]))) r = 1;
+	return r && p->n >= 3;
+}
 
 /* paths equal, an empty path under an authority being the same as "/" */
 static int path_eq_auth(const struct sv_path *a, const struct sv_path *b, int hasAuth) {
@@ -117,15 +126,17 @@ void harness(void) {
 			int r_domroot = KF_C10_DOMAINROOT_ROOTLESS && sameScheme && hostless && domainRoot && !vs.path.rooted;
 			struct sv_path cs = vs.path, cb = vb.path;
 			int r_emptysrc = (sv_canon(&cs), sv_canon(&cb), KF_C10_EMPTY_SOURCE_PATH && sameScheme && cs.n == 0 && cb.n > 0);
+			int r_dots = KF_C10_BASE_INNER_DOTS && sameScheme && base_inner_dots(&vb.path);
 			int roundtrip = sv_txt_eq(&vt.scheme, &vs.scheme) && sv_auth_eq(&vt, &vs) && path_eq_auth(&vt.path, &sdots, vs.hostkind != VU_HK_NONE)
 				&& sv_txt_eq(&vt.query, &vs.query) && sv_txt_eq(&vt.fragment, &vs.fragment);
-			VPOST("C10", r_auth || r_query || r_rooted || r_domroot || r_emptysrc || roundtrip,
+			VPOST("C10", r_auth || r_query || r_rooted || r_domroot || r_emptysrc || r_dots || roundtrip,
 				"RemoveBaseUri: resolving the produced reference against the base gives back the source (after dot-segment removal, empty path under an authority == '/')");
 			VKF(KF_C10_AUTHORITY_USERINFO_PORT, r_auth, roundtrip, "C10-authority-compared-by-host-only", "round trip");
 			VKF(KF_C10_EMPTY_REF_KEEPS_BASE_QUERY, r_query, roundtrip, "C10-empty-reference-keeps-base-query", "round trip");
 			VKF(KF_C10_HOSTLESS_ROOTEDNESS, r_rooted, roundtrip, "C10-hostless-rootedness-differs", "round trip");
 			VKF(KF_C10_EMPTY_SOURCE_PATH, r_emptysrc, roundtrip, "C10-empty-source-path", "round trip");
 			VKF(KF_C10_DOMAINROOT_ROOTLESS, r_domroot, roundtrip, "C10-domainroot-makes-rootless-source-absolute", "round trip");
+			VKF(KF_C10_BASE_INNER_DOTS, r_dots, roundtrip, "C10-base-with-inner-dot-segments", "round trip");
 		}
 		VPOST("C07", sv_reparse_safe(&vd), "RemoveBaseUri: result text is read back with the same components");
 		VPOST("C12", dest.owner == URI_FALSE, "RemoveBaseUri: result does not claim ownership of borrowed text");
